@@ -8,9 +8,9 @@ replay = base.s_replay
 
 def run(tier):
     fn, t = ("c14", 400) if tier == "quick" else ("c14t", 1800)
-    jobs = [chrun.SJob("vlib.sh.c14", fn, base.parts(96), t,
+    jobs = [chrun.SJob("vlib.sh.c14", fn, base.parts(104), t,
                        what="simplify_chained_calls on 8 packaging kinds (tuple, list, dict, tuple-in-tuple, tuple/dict mixed nesting, sequence+scalar in tuple, "
-                            "sequence+scalar in dict, dict with integer keys) x 12 consumer chains (Select / Where+Select / repackaging middle stage / SelectMany or double Where / nested "
+                            "sequence+scalar in dict, dict with integer keys) x 13 consumer chains (three SelectMany stages with the packages taken apart in the last one / Select / Where+Select / repackaging middle stage / SelectMany or double Where / nested "
                             "Select over the packaged sequence referring to another packaged field / three stages with a final result tuple / nested chain whose Where looks only at another packaged field / SelectMany packaging per inner element taken apart by a second SelectMany / two SelectMany levels taken apart by a Select / a pass-through Select(x -> x) in the middle / First of a packaging SelectMany projected afterwards / a packaged First(...) read by attribute in a later stage) x " + ("2 binder naming schemes (all identical, partial re-use)" if tier == "quick" else "3 binder naming schemes (distinct, all identical, partial re-use)") + "; "
                             " symbolic: tuple arity 1..3, projected index, two distinct dictionary key strings "
                             "(any str, len<=%d, used as ['k'] and as .k)%s; oracle: no Tuple/List/Dict node and no constant Subscript remains outside the final result"
@@ -18,6 +18,6 @@ def run(tier):
     r, so = base.run_s(PROP, tier, "other", jobs,
                        explanation="bounded symbolic execution (CrossHair/z3) of the real simplifier on packaging/projection chains with symbolic arity, index and key strings",
                        functions=["func_adl.ast.function_simplifier.simplify_chained_calls (visit_Call, call_Select/Where/SelectMany, visit_*_of_*, visit_Subscript*, visit_Attribute, convolute, make_args_unique)"],
-                       bounds={"packaging_kinds": 8, "consumers": 12, "naming_schemes": 2 if tier == "quick" else 3, "arity": [1, 3], "key_len": 2 if tier == "quick" else 3},
+                       bounds={"packaging_kinds": 8, "consumers": 13, "naming_schemes": 2 if tier == "quick" else 3, "arity": [1, 3], "key_len": 2 if tier == "quick" else 3},
                        not_traced=["residue scan of the simplified tree (harness side)"])
     return r.finish()
